@@ -109,5 +109,7 @@ func controlsC17() []Control {
 			}
 			return p.replaceNode(id, "nil")
 		}},
+		{Name: "manager registers the reserved callback under the state setter", Expect: "F7", Mutate: replaceIn("(*manager).CreateTable", "tableEngine.OnTablePlayerStateUpdated(engineCallbacks.OnTablePlayerStateUpdated)", "tableEngine.OnTablePlayerStateUpdated(engineCallbacks.OnTablePlayerReserved)", 0)},
+		{Name: "manager ignores the caller callbacks", Expect: "F7", Mutate: replaceIn("(*manager).CreateTable", "if callbacks != nil {", "if callbacks == nil {", 0)},
 	}
 }
